@@ -103,7 +103,7 @@ def run(ctx):
 
     # ---- leg C
     rej = pc.validate(ctx, recs, TRACE_CFG, "C01", max_reject=5)
-    pc.report(ctx, recs, rej)
+    pc.report(ctx, recs, rej, TRACE_CFG)
     st = pc.steering_stats(ctx, recs)
     ctx.cov["evaluations"] = len(recs)
     nontriv = set()
